@@ -748,6 +748,8 @@ func (a *Act) firstClass(st *State, lv *LV) Term {
 		addr := app(fn, base)
 		tr.assume(Implies(Not(Eq(base, "0")), app(">", addr, "0")), "address of a field of a non-nil object is non-nil")
 		if st != nil {
+			// the field of an object that exists is not something a callee can allocate
+			tr.assume(Implies(And(st.reach, app("<=", base, st.alloc)), app("<=", addr, st.alloc)), "address of a field of an existing object exists")
 			c := tr.cellComp(lv.typ)
 			st.heap[c.name] = tr.heapStore(tr.heapOf(st, c), []Term{addr}, a.load(st, lv))
 		}
@@ -758,6 +760,7 @@ func (a *Act) firstClass(st *State, lv *LV) Term {
 		addr := app(fn, lv.arr, lv.idx)
 		tr.assume(app(">", addr, "0"), "address of a slice element is non-nil")
 		if st != nil {
+			tr.assume(Implies(And(st.reach, app("<=", lv.arr, st.alloc)), app("<=", addr, st.alloc)), "address of an element of an existing array exists")
 			c := tr.cellComp(lv.typ)
 			st.heap[c.name] = tr.heapStore(tr.heapOf(st, c), []Term{addr}, a.load(st, lv))
 		}
